@@ -28,7 +28,7 @@ def all_params():
     return out
 
 
-STAGES = ["never", "initialized", "paused", "forward", "backward", "backward_noreverse", "absence_edited", "forward_absence"]
+STAGES = ["never", "initialized", "paused", "forward", "backward", "backward_noreverse", "absence_edited", "forward_absence", "history"]
 
 
 def make_case(prop, seed, i, tier):
@@ -69,8 +69,9 @@ def make_case(prop, seed, i, tier):
         t = spec["tasks"][sub]
         t["auto"], t["need_facility"], t["component"] = True, False, None
     stage = STAGES[(i // 4 * 3 + i % 4) % len(STAGES)] if rng.random() < 0.8 else rng.choice(STAGES)
+    from .p_c08 import gen_ops
     return dict(prop=prop, i=i, kind="stage", spec=spec, stage=stage, k=rng.choice([0, 1, 2, 3, 5, 8]), subproject_task=sub,
-                edit=sorted(rng.sample(range(0, 12), rng.randint(1, 3))))
+                edit=sorted(rng.sample(range(0, 12), rng.randint(1, 3))), hist=gen_ops(rng, n=rng.randint(2, 4)))
 
 
 # ---------------------------------------------------------------------------------------
@@ -243,7 +244,9 @@ def run_stage(case, res):
     st = case["stage"]
     ops = {"never": [], "initialized": [["init"]], "paused": [["pause", case["k"]]], "forward": [["sim"]],
            "backward": [["backward", True, True]], "backward_noreverse": [["backward", False, False]],
-           "absence_edited": [["sim"], ["insert_abs", case["edit"]]], "forward_absence": [["sim"], ["remove_abs"]]}[st]
+           "absence_edited": [["sim"], ["insert_abs", case["edit"]]], "forward_absence": [["sim"], ["remove_abs"]],
+           # any history of 2-4 operations (runs, pauses, resumes, appended runs, backward runs, reversals, reloads)
+           "history": case.get("hist") or [["sim"], ["backward", True, True], ["sim_keeplog"]]}[st]
     for op in ops:
         e = h.do(op)
         if e is not None:
